@@ -4,6 +4,10 @@ use vstd::std_specs::cmp::OrdSpec;
 pub assume_specification<T: std::cmp::Ord + std::marker::Destruct>[std::cmp::min](a: T, b: T) -> (r: T)
     ensures T::obeys_cmp_spec() ==> r == (if a.cmp_spec(&b) == std::cmp::Ordering::Greater { b } else { a });
 
+#[verifier::allow(undeclared_external_trait)]
+pub assume_specification<T: std::cmp::Ord + std::marker::Destruct>[std::cmp::max](a: T, b: T) -> (r: T)
+    ensures T::obeys_cmp_spec() ==> r == (if a.cmp_spec(&b) == std::cmp::Ordering::Greater { a } else { b });
+
 /// big-endian 32-bit layout (arithmetical definition)
 pub open spec fn be32(x: u32) -> Seq<u8> {
     seq![(x / 0x1000000) as u8, ((x / 0x10000) % 256) as u8, ((x / 0x100) % 256) as u8, (x % 256) as u8]
